@@ -119,7 +119,8 @@ def gen_scenario(r: random.Random, task: Optional[str] = None, n_frames: Optiona
             dict(
                 key=f"inst{i:03d}",
                 cat=cat,
-                p=[rad * math.cos(ang), rad * math.sin(ang), r.uniform(-0.5, 0.5)],
+                # a few objects well above / below the ego (overpass, ramp): planar range criteria must ignore height
+                p=[rad * math.cos(ang), rad * math.sin(ang), r.uniform(-0.5, 0.5) if r.random() > 0.08 else r.choice([-1, 1]) * r.uniform(4.0, 15.0)],
                 v=[r.uniform(-8, 8), r.uniform(-8, 8)],
                 yaw=O.rand_yaw(r),
                 yawrate=r.uniform(-0.3, 0.3),
